@@ -1,6 +1,7 @@
 package service
 
 import (
+	"encoding/json"
 	"fmt"
 	"github.com/orda-io/orda/client/pkg/context"
 	"github.com/orda-io/orda/client/pkg/errors"
@@ -296,6 +297,20 @@ func (its *PushPullHandler) recordUnrecordedOperations() {
 	if err != nil || len(sseqList) == 0 {
 		return
 	}
+	// An insert that was interrupted in the middle of a transaction has stored only its beginning. Nobody was
+	// told that these operations are stored: they are removed (the last one first), and whoever pushed them
+	// pushes the whole transaction again.
+	if n := completeUnits(opList); n < len(opList) {
+		for i := len(sseqList) - 1; i >= n; i-- {
+			if _, err := its.managers.Mongo.DeleteOperation(its.ctx, datatypeDoc.DUID, uint32(sseqList[i])); err != nil {
+				return
+			}
+		}
+		its.ctx.L().Warnf("removed the first %d operations of a transaction of %s whose end was never stored", len(sseqList)-n, datatypeDoc.DUID)
+		if opList, sseqList = opList[:n], sseqList[:n]; n == 0 {
+			return
+		}
+	}
 	its.adoptUnrecordedOperations(datatypeDoc, opList, sseqList)
 	datatypeDoc.Sseq.End = sseqList[len(sseqList)-1]
 	if err := its.managers.Mongo.UpdateDatatype(its.ctx, datatypeDoc); err != nil {
@@ -303,6 +318,27 @@ func (its *PushPullHandler) recordUnrecordedOperations() {
 		return
 	}
 	its.ctx.L().Warnf("recorded %d stored operations of %s that an interrupted push had left behind", len(sseqList), datatypeDoc.DUID)
+}
+
+// completeUnits returns how many of the operations, counted from the first one, form whole units: an
+// operation that begins a transaction counts together with the operations it announces. A transaction whose
+// end is missing is left out.
+func completeUnits(opList []*model.Operation) int {
+	i := 0
+	for i < len(opList) {
+		n := 1
+		if opList[i].GetOpType() == model.TypeOfOperation_TRANSACTION {
+			var body operations.TransactionBody
+			if err := json.Unmarshal(opList[i].Body, &body); err == nil && body.NumOfOps > 1 {
+				n = int(body.NumOfOps)
+			}
+		}
+		if i+n > len(opList) {
+			break
+		}
+		i += n
+	}
+	return i
 }
 
 // adoptUnrecordedOperations moves the checkpoints of the clients whose stored operations lie beyond the recorded
@@ -327,6 +363,11 @@ func (its *PushPullHandler) pullOperations() errors.OrdaError {
 		opList, sseqList, err := its.managers.Mongo.GetOperations(its.ctx, its.DUID, sseqBegin, constants.InfinitySseq)
 		if err != nil {
 			return errors.PushPullAbortionOfServer.New(its.ctx.L(), err.Error())
+		}
+		// the beginning of a transaction that an interrupted push has left beyond the recorded end of the log
+		// is not part of the log (see recordUnrecordedOperations)
+		if n := completeUnits(opList); n < len(opList) && sseqList[n] > its.datatypeDoc.Sseq.End {
+			opList, sseqList = opList[:n], sseqList[:n]
 		}
 		if len(opList) > 0 {
 			its.currentCP.Sseq = sseqList[len(sseqList)-1] + (uint64)(len(its.pushingOperations))
